@@ -81,12 +81,27 @@ class Effect:
     other: tuple  # any other effect event (unexpected)
 
 
+def _is_clear(e: PEvent, container: Any) -> bool:
+    import ast
+
+    f = e.node.ast.func if isinstance(e.node.ast, ast.Call) else None
+    return isinstance(f, ast.Attribute) and f.attr == "clear" and e.recv == container and not any(t.kind in ("repo", "ctor", "callback") for t in e.targets)
+
+
 def decode(p: SymPath) -> Effect:
     st = oa = pr = "-"
     clears = 0
     notes = []
     other = []
+    # `_clear_failures()` spelled out: one clear of each window container counts as one clearing
+    inline_f = [e for e in p.events if e.kind == "call" and _is_clear(e, attr(SELF, "_failures"))]
+    inline_c = [e for e in p.events if e.kind == "call" and _is_clear(e, attr(SELF, "_class_failures"))]
+    paired = min(len(inline_f), len(inline_c))
+    clears += paired
+    skip = set(map(id, inline_f[:paired] + inline_c[:paired]))
     for e in p.events:
+        if id(e) in skip:
+            continue
         if e.kind == "store":
             if e.loc == S:
                 st = val_name(e.value)
